@@ -36,7 +36,7 @@ def main():
     names = [a for a in sys.argv[1:] if not a.startswith("--")]
     idx = json.load(open(os.path.join(RF, "index.json")))
     todo = [n for n in sorted(idx) if not names or n in names]
-    jobs = 8
+    jobs = int(os.environ.get("VERIF_JOBS", "8"))
     tg = [tempfile.mkdtemp(prefix="rf-tgt-") for _ in range(jobs)]
     res = {}
     t0 = time.time()
